@@ -611,6 +611,7 @@ func (i *inMemoryPrepopulatedDirectory) CreateAndEnterPrepopulatedDirectory(name
 	}
 
 	if contents.isDeleted {
+		i.lock.Unlock()
 		return nil, syscall.ENOENT
 	}
 	child := contents.attachNewDirectory(i.subtree, name, normalizedName, EmptyInitialContentsFetcher)
